@@ -213,8 +213,15 @@ def property_far(ant, src_seed, th, ph, nlam, pwr):
     if abs(et - ft) > 0.02 * big or abs(ep - fp) > 0.02 * big:
         return 'at %g wavelengths (theta=%g, phi=%g) |E_theta|, |E_phi| = %.5g, %.5g but the far field reports %.5g, %.5g' % (nlam, th, ph, et, ep, ft, fp)
     en, hn = np.linalg.norm(e), np.linalg.norm(h)
-    if abs(np.dot(e, rh)) > 0.02 * en or abs(np.dot(h, rh)) > 0.02 * hn:
-        return 'field at %g wavelengths is not transverse (radial parts %.3g of E, %.3g of H)' % (nlam, abs(np.dot(e, rh)) / en, abs(np.dot(h, rh)) / hn)
+    # radial parts are measured against the pattern maximum at this distance, as the other tolerances of the far field are: the
+    # staggered pulse / charge model leaves a radial E of the order (k Δ)²/12 of the field *strength of the structure* that does
+    # not decay faster than 1/r, and in a direction of weak radiation that is more than 2 % of the local field
+    ths = list(range(5, 90, 10)) if ant['ground'] else list(range(5, 180, 10))
+    scan = farlib.impl_far(m, [float(x) for x in ths], [ph, ph + 90.0], pwr=pwr, dist=r)
+    ref = max([big] + [max(abs(v['e_theta']), abs(v['e_phi'])) for v in scan.values()])
+    if abs(np.dot(e, rh)) > 0.02 * ref or abs(np.dot(h, rh)) > 0.02 * ref / 376.7:
+        return ('field at %g wavelengths is not transverse (radial parts %.3g of E, %.3g of H, of the pattern maximum %.3g / %.3g)'
+                % (nlam, abs(np.dot(e, rh)) / en, abs(np.dot(h, rh)) / hn, abs(np.dot(e, rh)) / ref, abs(np.dot(h, rh)) * 376.7 / ref))
     if abs(en / hn - 376.7) > 0.01 * 376.7:
         return 'E/H = %.5g ohm at %g wavelengths' % (en / hn, nlam)
     return None
